@@ -10,13 +10,14 @@ import (
 
 func init() {
 	regSpec(scen.Queries)
+	regSpec(scen.QueriesMany)
 	Registry["C17"] = func(tier string) int {
 		// The market scenario adds states with expiring / partially filled /
 		// cancelled orders and escrow; one level shallower than its own checks
 		// because every state costs a full request enumeration here.
 		market := scen.Market()
 		market.DepthQuick, market.DepthThor, market.MinStates = 2, 3, 50
-		return engineA("C17", tier, []scen.Spec{scen.Queries(), market},
+		return engineA("C17", tier, []scen.Spec{scen.QueriesMany(), scen.Queries(), market},
 			func() []explore.Monitor { return []explore.Monitor{&mon.C17{}} },
 			budget(tier, 150*time.Second, 15*time.Minute),
 			"C17 request alphabet per (query, filter argument): nil pagination; key walks with limit in {1,2,3,N,N+1} following next_key to exhaustion; offset in 0..N x limit in {1,2}; count_total on and off; reverse key walks (limit 1,2) and a reverse offset walk (limit 1)",
